@@ -74,6 +74,13 @@ func ResolveStateConflictsV2(
 		}
 	}
 	if createEvent == nil {
+		// a room whose state is only its create event has no auth events at all
+		createEvent = getCreateEvent(unconflicted)
+	}
+	if createEvent == nil {
+		createEvent = getCreateEvent(conflicted)
+	}
+	if createEvent == nil {
 		// FIXME TODO: We previously panicked here but this meant Dendrite would crash on startup.
 		// We really need to get our error handling sorted properly when doing state resolution..
 		// See https://github.com/element-hq/dendrite/issues/3629
